@@ -780,3 +780,21 @@ silent('r39-truediv-for-break', ALL, [(CORE, "        while onset < len(self):\n
                                        "        while onset < len(self):\n            extra = 1 if rest > 0 else 0\n            rest -= extra\n            offset = onset + samples_per_sub_region + extra")])
 silent('r40-mul-int-check-first', ALL, [(CORE, "        if not isinstance(n, int):\n            err_msg = \"Can't multiply AudioRegion by a non-int of type '{}'\"\n            raise TypeError(err_msg.format(type(n)))\n        data = self.data * n\n        return AudioRegion(data, self.sr, self.sw, self.ch)",
                                          "        if isinstance(n, int):\n            return AudioRegion(self.data * n, self.sr, self.sw, self.ch)\n        err_msg = \"Can't multiply AudioRegion by a non-int of type '{}'\"\n        raise TypeError(err_msg.format(type(n)))")])
+
+# ------------------------------------------------------------------ gaps found by the mutation sweep (tools/mutation_sweep.py): test-surviving
+# AST mutants that no check reported at first; each one led to a rule (DESIGN 10.5f) and is kept here so that the rule stays armed
+fires('s01-ctor-min-length-or-to-and', ['C02'], [(CORE, "        if min_length <= 0 or min_length > max_length:", "        if min_length <= 0 and min_length > max_length:")])
+fires('s02-len-width-floordiv-channels', ['C16'], [(CORE, "        return len(self.data) // (self.sample_width * self.channels)", "        return len(self.data) // (self.sample_width // self.channels)")])
+fires('s03-truediv-loop-le', ['C17'], [(CORE, "        while onset < len(self):", "        while onset <= len(self):")])
+fires('s04-truediv-rejects-one', ['C17'], [(CORE, "        if not isinstance(n, int) or n <= 0:", "        if not isinstance(n, int) or n <= 1:")])
+fires('s05-buffer-open-at-construction', ['C11'], [(IO, "        self._current_position_bytes = 0\n        self._is_open = False", "        self._current_position_bytes = 0\n        self._is_open = True")])
+fires('s06-region-split-default-strict', ['C05'], [(CORE, "        self,\n        min_dur=0.2,\n        max_dur=5,\n        max_silence=0.3,\n        drop_trailing_silence=False,\n        strict_min_dur=False,\n        **kwargs,\n    ):\n        \"\"\"\n        Split audio region.",
+                                                    "        self,\n        min_dur=0.2,\n        max_dur=5,\n        max_silence=0.3,\n        drop_trailing_silence=False,\n        strict_min_dur=True,\n        **kwargs,\n    ):\n        \"\"\"\n        Split audio region.")])
+fires('s07-main-argv-test-inverted', ['C15'], [(CMD, "    if argv is None:\n        argv = sys.argv[1:]", "    if argv is not None:\n        argv = sys.argv[1:]")])
+fires('s08-main-argv-includes-program-name', ['C15'], [(CMD, "        argv = sys.argv[1:]", "        argv = sys.argv[0:]")])
+fires('s09-main-wait-loop-zero-threads', ['C15'], [(CMD, "            if len(threading.enumerate()) == 1:", "            if len(threading.enumerate()) == 0:")])
+fires('s10-main-wait-loop-inverted', ['C15'], [(CMD, "            if len(threading.enumerate()) == 1:", "            if len(threading.enumerate()) != 1:")])
+fires('s11-region-saver-args-swapped', ['C15'], [(CMDU, "            kwargs[\"save_detections_as\"],\n            kwargs[\"export_format\"],", "            kwargs[\"export_format\"],\n            kwargs[\"save_detections_as\"],")])
+fires('s12-use-channel-option-removed', ['C15'], [(CMD, "            \"-u\",\n            \"--use-channel\",\n            dest=\"use_channel\",", "            \"-U\",\n            \"--use-channels\",\n            dest=\"use_channels\",")])
+fires('s13-stdin-close-keeps-open', ['C11'], [(IO, "    def close(self):\n        self._is_open = False\n\n    def _read_from_stream(self, size):\n        bytes_to_read = size * self._sample_size", "    def close(self):\n        self._is_open = True\n\n    def _read_from_stream(self, size):\n        bytes_to_read = size * self._sample_size")])
+fires('s14-file-close-keeps-stream', ['C11'], [(IO, "    def close(self):\n        if self._audio_stream is not None:\n            self._audio_stream.close()\n            self._audio_stream = None\n", "    def close(self):\n        if self._audio_stream is not None:\n            self._audio_stream.close()\n")])
